@@ -21,6 +21,12 @@ instance : NumOps Float where
   le x y := x ≤ y
   recipInt x := goInt (1.0 / x)
   ofNat n := n.toFloat
+  ge x y := x ≥ y
+  lt x y := x < y
+  isPosInf x := x.isInf && x > 0.0
+  ceilMul l q := goInt (l.toFloat * q).ceil
+  toUInt64Exact x :=
+    if x ≥ 0.0 && x < 18446744073709551616.0 && x.floor == x then some x.toUInt64.toNat else none
 
 def floatOfHex (s : String) : Option Float :=
   if s == "nan" then some (0.0 / 0.0) else (parseHex64 s).map Float.ofBits
